@@ -1272,6 +1272,10 @@ func (c *Corpus) PermanodeModtime(pn blob.Ref) (t time.Time, ok bool) {
 		if c.IsDeleted(cl.BlobRef) {
 			continue
 		}
+		if cl.Type == string(schema.DeleteClaim) {
+			// (Un)deletions are not modifications (doc/schema/delete.md).
+			continue
+		}
 		if cl.Date.After(t) {
 			t = cl.Date
 		}
